@@ -51,6 +51,14 @@ let show_stack = function Ok s -> "ok " ^ String.concat "," (List.map hz s) | Er
 let rec pos_bits = function XH -> 1 | XO p -> 1 + pos_bits p | XI p -> 1 + pos_bits p
 let small z = match z with Z0 -> true | Zpos p -> pos_bits p <= 20 | Zneg _ -> false
 
+let bool_of = function "true" | "1" -> true | "false" | "0" -> false | s -> failwith ("bool " ^ s)
+let n_to_z_len l = z_of_int (List.length l)
+let gtf_of = function
+  | "homestead" -> gasTableHomestead_full
+  | "hf1" -> gasTableHF1_full
+  | "pre150" -> { gasTableHomestead_full with gf_CreateBySuicide = Z0 }
+  | s -> failwith ("gas table " ^ s)
+
 let handle toks =
   match toks with
   (* op OPCODE a b c: result of the Go-shaped model and of the specification on the same operands *)
@@ -114,17 +122,17 @@ let handle toks =
   (* ---- stack / memory / code / call-data instructions on explicit frames (bytes as hex) ---- *)
   | ["mload"; mem; off] ->
     let mm = zb mem in
-    (match op_MLOAD mm (zs off) with Ok v -> "ok " ^ hz v | Err _ -> "err" | Panic -> "panic") ^ " s=" ^ (if small (zs off) then hz (spec_MLOAD mm (zs off)) else "skip")
+    (match op_MLOAD mm (zs off) with Ok v -> "ok " ^ hz v | Err _ -> "err" | Panic -> "panic") ^ " s=" ^ hz (spec_MLOAD mm (zs off))
   | ["mstore"; mem; off; v] ->
     let mm = zb mem in
-    show_mem (op_MSTORE mm (zs off) (zs v)) ^ " s=" ^ (if small (zs off) then hex_of_zbytes (spec_MSTORE mm (zs off) (zs v)) else "skip")
+    show_mem (op_MSTORE mm (zs off) (zs v)) ^ " s=" ^ hex_of_zbytes (spec_MSTORE mm (zs off) (zs v))
   | ["mstore8"; mem; off; v] ->
     let mm = zb mem in
-    show_mem (op_MSTORE8 mm (zs off) (zs v)) ^ " s=" ^ (if small (zs off) then hex_of_zbytes (spec_MSTORE8 mm (zs off) (zs v)) else "skip")
-  | ["cdload"; input; i] -> hz (op_CALLDATALOAD (zb input) (zs i)) ^ " s=" ^ (if small (zs i) then hz (spec_CALLDATALOAD (zb input) (zs i)) else "skip")
+    show_mem (op_MSTORE8 mm (zs off) (zs v)) ^ " s=" ^ hex_of_zbytes (spec_MSTORE8 mm (zs off) (zs v))
+  | ["cdload"; input; i] -> hz (op_CALLDATALOAD (zb input) (zs i)) ^ " s=" ^ hz (spec_CALLDATALOAD (zb input) (zs i))
   | ["datacopy"; mem; data; mo; dof; len] ->
     show_mem (op_DATACOPY (zb mem) (zb data) (zs mo) (zs dof) (zs len))
-    ^ " s=" ^ (if small (zs len) && small (zs dof) && small (zs mo) then hex_of_zbytes (spec_DATACOPY (zb mem) (zb data) (zs mo) (zs dof) (zs len)) else "skip")
+    ^ " s=" ^ (if small (zs len) then hex_of_zbytes (spec_DATACOPY (zb mem) (zb data) (zs mo) (zs dof) (zs len)) else "skip")
   | ["rdcopy"; mem; rd; mo; dof; len] -> show_mem (op_RETURNDATACOPY (zb mem) (zb rd) (zs mo) (zs dof) (zs len))
   | ["push"; code; pc; n] ->
     let (v, pc') = op_PUSH (zb code) (zs pc) (zs n) (zs n) in
@@ -137,6 +145,51 @@ let handle toks =
     show_stack (op_SWAP (zs n) s) ^ " s=" ^ String.concat "," (List.map hz (spec_SWAP (nat_of_int (int_of_z (zs n))) s))
   | ["jump"; code; pos] -> show_one (op_JUMP (zb code) (zs pos))
   | ["jumpi"; code; pc; pos; cond] -> show_one (op_JUMPI (zb code) (zs pc) (zs pos) (zs cond))
+  (* ---- second wave: SHA3, environment, state-dependent gas, rules ---- *)
+  | ["sha3"; mem; off; len] ->
+    let mm = zb mem in
+    show_one (op_SHA3 mm (zs off) (zs len)) ^ " s=" ^ (if small (zs len) then hz (spec_SHA3 keccakZ mm (zs off) (zs len)) else "skip")
+  | ["keccak"; data] -> hex_of_zbytes (keccakZ (zb data))
+  | ["env"; op; a; cl; cv; o; gp; cb; t; n; d; gl; input; code; ret; mem; pc; gas] ->
+    let e = { e_address = zs a; e_caller = zs cl; e_callvalue = zs cv; e_origin = zs o; e_gasprice = zs gp;
+              e_coinbase = zs cb; e_time = zs t; e_number = zs n; e_difficulty = zs d; e_gaslimit = zs gl } in
+    let sh = function Some v -> "ok " ^ hz v | None -> "none" in
+    sh (op_ENV (zs op) e (zb input) (zb code) (zb ret) (zb mem) (zs pc) (zs gas))
+    ^ " s=" ^ sh (spec_ENV (zs op) (zs a) (zs o) (zs cl) (zs cv) (zs gp) (zb input) (zb code) (zb ret) (zs cb) (zs t) (zs n) (zs d) (zs gl)
+                    (zs pc) (n_to_z_len (zb mem)) (zs gas))
+  | ["sstore"; cur; y] ->
+    let (g, r) = gasSStore (zs cur) (zs y) in
+    hz g ^ " " ^ hz r ^ " s=" ^ hz (c_sstore (zs cur) (zs y)) ^ " " ^ hz (r_sstore (zs cur) (zs y))
+  | ["gascall"; kind; gt; e158; value; empty; exist; memlen; last; ms; avail; cost] ->
+    let g = gtf_of gt and b = bool_of in
+    let ml = zs memlen and la = zs last and m = zs ms and av = zs avail and co = zs cost and va = zs value in
+    let r = (match kind with
+      | "call" -> gasCall g (b e158) va (b empty) (b exist) ml la m av co
+      | "callcode" -> gasCallCode g va ml la m av co
+      | "delegate" -> gasDelegateCall g ml la m av co
+      | "static" -> gasStaticCall g ml la m av co
+      | _ -> failwith "kind") in
+    let extra = (match kind with
+      | "call" -> c_extra g.gf_Calls (b e158) va (b empty) (b exist)
+      | "callcode" -> Z.add g.gf_Calls (c_xfer va)
+      | _ -> g.gf_Calls) in
+    let w0 = Z.div ml (zs "32") in
+    let w1 = Z.max w0 (ceil32 m) in
+    let fee = Z.sub (cmem w1) (cmem w0) in
+    (match r with Ok ((a, t), l) -> "ok " ^ hz a ^ " " ^ hz t ^ " " ^ hz l | Err _ -> "err" | Panic -> "panic")
+    ^ " s=" ^ hz (c_call extra fee av co) ^ " " ^ hz (c_gascap av (Z.add extra fee) co) ^ " " ^ hz (Z.add extra fee)
+  | ["suicide"; gt; e150; e158; empty; exist; bal; already] ->
+    let g = gtf_of gt and b = bool_of in
+    let (gas, r) = gasSuicide g (b e150) (b e158) (b empty) (b exist) (b bal) (b already) in
+    hz gas ^ " " ^ hz r ^ " s=" ^ hz (c_selfdestruct g.gf_Suicide g.gf_CreateBySuicide (b e150) (b e158) (b empty) (b exist) (b bal))
+    ^ " " ^ hz (r_selfdestruct (b already))
+  | ["gtlookup"; gt] -> let g = gtf_of gt in hz (gasBalance g) ^ " " ^ hz (gasExtCodeSize g) ^ " " ^ hz (gasSLoad g)
+  | ["enforce"; byz; ro; wr; ic; value] ->
+    string_of_bool_ (enforceRestrictions (bool_of byz) (bool_of ro) (bool_of wr) (bool_of ic) (zs value))
+  | ["rules"; hs; e150; e155; e158; byz; num] ->
+    let r = select_rules { rc_homestead = opt_of hs; rc_eip150 = opt_of e150; rc_eip155 = opt_of e155; rc_eip158 = opt_of e158;
+                           rc_byzantium = opt_of byz } (zs num) in
+    String.concat " " (List.map string_of_bool_ [r.r_homestead; r.r_eip150; r.r_eip155; r.r_eip158; r.r_byzantium])
   | _ -> "driver-error unknown-command"
 
 let () = self_test b2n; serve handle
